@@ -482,6 +482,85 @@ func serveScenario(nconn int) *mc.Scenario {
 	return &mc.Scenario{Name: name, Body: body, Check: check, Model: sched.Deviation, NoCache: true}
 }
 
+// afterAbandonedScenario: the first stream's multi-frame reply is abandoned by the client (Close)
+// while the server may be between two of its frames; the second stream on the same connection must
+// deliver everything that is sent on it, in order, then end-of-stream.
+func afterAbandonedScenario(cfg wl.Config) *mc.Scenario {
+	name := fmt.Sprintf("deliver-after-abandoned-stream[%s | stream 1: a multi-frame reply, closed by the client without receiving ; stream 2: two echoed messages and half-close]", cfg)
+	type res struct {
+		got  [][]byte
+		err  error
+		done bool
+	}
+	body := func() {
+		r := &res{}
+		handler := func(e *wl.Env, stream drpc.Stream, rpc string) error {
+			if rpc == "/big" {
+				out := enc.Payload('B', 1, 0, enc.MinPayload+6)
+				_ = stream.MsgSend(&out, enc.Bytes{})
+				return nil
+			}
+			return echoAll{}.HandleRPC(stream, rpc)
+		}
+		env := wl.NewEnv(cfg, handler)
+		env.Facts["res"] = r
+		vs.Go("client", func() {
+			defer func() { r.done = true }()
+			if s1, err := env.Conn.NewStream(context.Background(), "/big", enc.Bytes{}); err == nil {
+				_ = s1.Close()
+			}
+			st, err := env.Conn.NewStream(context.Background(), "/echo", enc.Bytes{})
+			if err != nil {
+				r.err = err
+				return
+			}
+			for k := 0; k < 2; k++ {
+				out := enc.Payload('E', 0, byte(k), enc.MinPayload+k)
+				if err := st.MsgSend(&out, enc.Bytes{}); err != nil {
+					r.err = err
+					return
+				}
+				var in []byte
+				if err := st.MsgRecv(&in, enc.Bytes{}); err != nil {
+					r.err = err
+					return
+				}
+				r.got = append(r.got, in)
+			}
+			if err := st.CloseSend(); err != nil {
+				r.err = err
+				return
+			}
+			var in []byte
+			r.err = st.MsgRecv(&in, enc.Bytes{})
+		})
+		sched.Quiesce()
+		env.Facts["closed"] = env.ConnClosed()
+		env.Teardown()
+	}
+	check := func(e *sched.Exec) string {
+		if m := wl.Basic(e); m != "" {
+			return m
+		}
+		env := wl.GetEnv(e)
+		r := env.Facts["res"].(*res)
+		if c, _ := env.Facts["closed"].(bool); c {
+			return "" // (the connection was given up: nothing more is promised on it)
+		}
+		if !r.done || r.err != io.EOF || len(r.got) != 2 {
+			return fmt.Sprintf("stream 2 after an abandoned stream: 2 messages sent and echoed, %d received, ended with %v (returned=%v) on a connection that is still open", len(r.got), r.err, r.done)
+		}
+		for k, m := range r.got {
+			t, _, q, verr := enc.Verify(m)
+			if verr != nil || t != 'E' || int(q) != k {
+				return fmt.Sprintf("stream 2 received a message that is not its message %d (tag %c seq %d, verify: %v)", k, t, q, verr)
+			}
+		}
+		return ""
+	}
+	return &mc.Scenario{Name: name, Body: body, Check: check, Model: sched.Deviation, NoCache: true}
+}
+
 func basePlans(tier string) []mc.Plan {
 	var ps []mc.Plan
 	add := func(cfg wl.Config, sp spec, bounds ...int) {
@@ -551,6 +630,11 @@ func basePlans(tier string) []mc.Plan {
 			for _, cfg := range []wl.Config{{Pipe: tr.Options{Cap: -1, EOFWithData: withData}}, {Pipe: tr.Options{Cap: -1, EOFWithData: withData}, SplitSize: 2, WriterBuf: 1}} {
 				add(cfg, spec{dir: "c2s", senders: [][]int{{3, 1, 3}}, receivers: 1, halfClose: true, disturb: "hangup"}, 0, 1)
 			}
+		}
+		// a stream after one whose multi-frame reply was abandoned half-way
+		for _, cfg := range []wl.Config{{Soft: true, Pipe: tr.Options{Cap: -1}, SplitSize: 2, WriterBuf: 1}, {Pipe: tr.Options{Cap: -1}, SplitSize: 3, WriterBuf: 1}} {
+			sc := afterAbandonedScenario(cfg)
+			ps = append(ps, mc.Plan{Scen: sc, Bounds: []int{0, 1}}, mc.Plan{Scen: sc.Reversed(), Bounds: []int{0, 1}})
 		}
 		// several connections ready at once on a Server.Serve
 		ps = append(ps, mc.Plan{Scen: serveScenario(2), Bounds: []int{0, 1}}, mc.Plan{Scen: serveScenario(3), Bounds: []int{0}})
